@@ -23,11 +23,22 @@ type c03cfg struct {
 	starttls  string
 	session   string
 	smAdv     bool
+	// afterFailed: the same Client made an attempt before, which the server failed at one step (a free choice
+	// among c03failures); the attempt under test must be judged on its own answers only
+	afterFailed bool
 }
 
+// (step, answer) pairs that fail the earlier attempt of an afterFailed scenario
+var c03failures = [][2]string{{"auth", "failure"}, {"header3-features", "message-instead"}, {"bind", "error-echo"}, {"bind", "close"},
+	{"session", "error"}, {"enable", "failed"}, {"starttls", "failure"}, {"header1", "close"}}
+
 func (c c03cfg) name() string {
-	return fmt.Sprintf("insecure=%v/resource=%v/sm=%v/resumable=%v/starttls=%s/session=%s/smadv=%v",
+	n := fmt.Sprintf("insecure=%v/resource=%v/sm=%v/resumable=%v/starttls=%s/session=%s/smadv=%v",
 		c.insecure, c.resource, c.sm, c.resumable, c.starttls, c.session, c.smAdv)
+	if c.afterFailed {
+		n += "/after-failed-attempt"
+	}
+	return n
 }
 
 type c03out struct {
@@ -78,13 +89,31 @@ func c03body(sc c03cfg) func() {
 		var recs []*negRec
 		drop := false
 		last := 0
-		if sc.resumable {
+		if sc.resumable || sc.afterFailed {
 			last = 1
 		}
 		out.recs, out.last = &recs, last
+		var failure [2]string
+		if sc.afterFailed {
+			failure = c03failures[vrt.ChooseFree("earlier-attempt-fails-at", len(c03failures))]
+		}
 		listen(w, "example.org:5222", func(k int) *negCfg {
 			n := &negCfg{domain: "example.org", starttls: sc.starttls, cert: "valid", mechs: []string{"PLAIN"},
 				session: sc.session, sm: sc.smAdv, pick: explorePick}
+			if k < last && sc.afterFailed {
+				// earlier attempt: the configuration under test, one step failed
+				n.pick = func(step string, alts ...string) string {
+					if step == failure[0] {
+						for _, a := range alts {
+							if a == failure[1] {
+								return a
+							}
+						}
+					}
+					return alts[0]
+				}
+				return n
+			}
 			if k < last {
 				// set-up connection: everything succeeds, stream management with resumption
 				n.pick = defaultPick
@@ -111,6 +140,15 @@ func c03body(sc c03cfg) func() {
 		if err != nil {
 			vrt.Fail("C03|harness|newclient", "%v", err)
 			return
+		}
+		if sc.afterFailed {
+			if err := cl.Connect(); err == nil {
+				// the failing step was not part of this configuration's negotiation: an earlier session, ended by us
+				cl.Disconnect()
+			}
+			vrt.WaitIdle()
+			vrt.Log("earlier attempt (%s=%s) over", failure[0], failure[1])
+			out.events = nil
 		}
 		if sc.resumable {
 			if err := cl.Connect(); err != nil {
@@ -199,6 +237,11 @@ func c03verdict(e *vrt.Exec) {
 	if ok && !mand {
 		vrt.Fail("C03|success-despite-failure|"+missing, "Connect returned nil although %s (server steps %v)", missing, r.Steps)
 	}
+	if !ok && !mand && r.FailStep == "" && (sc.insecure || sc.starttls != "absent") {
+		// the server answered every request with its success answer and refused nothing, TLS was available if the
+		// client wanted it: the client gave up on its own (what it asked for up to then: r.Requests)
+		vrt.Fail("C03|gave-up-although-server-completed-every-step|last="+lastStep(r), "Connect returned %v although the server never refused anything (server steps %v, client requests %v)", out.connectErr, r.Steps, r.Requests)
+	}
 	if !ok && mand {
 		vrt.Fail("C03|error-despite-success|last="+lastStep(r), "Connect returned %v although every mandatory step succeeded (server steps %v)", out.connectErr, r.Steps)
 	}
@@ -258,11 +301,21 @@ func TestVerifC03(t *testing.T) {
 										continue
 									}
 								}
-								sc := c03cfg{insecure, resource, sm, resumable, starttls, session, smAdv}
+								sc := c03cfg{insecure, resource, sm, resumable, starttls, session, smAdv, false}
 								scs = append(scs, hx.Scenario{Name: sc.name(), Opt: vrt.Options{Bound: thoroughBound(1)}, Body: c03body(sc), Verdict: c03verdict})
 							}
 						}
 					}
+				}
+			}
+		}
+	}
+	for _, insecure := range []bool{true, false} {
+		for _, sm := range []bool{false, true} {
+			for _, starttls := range []string{"absent", "required"} {
+				for _, session := range []string{"absent", "mandatory"} {
+					sc := c03cfg{insecure: insecure, sm: sm, starttls: starttls, session: session, smAdv: true, afterFailed: true}
+					scs = append(scs, hx.Scenario{Name: sc.name(), Opt: vrt.Options{Bound: 0}, Body: c03body(sc), Verdict: c03verdict})
 				}
 			}
 		}
